@@ -260,8 +260,9 @@ package server
 // The loop is verified iteration-wise (no loop invariant is needed: every clause is relative to the iteration in
 // which register is called); at(iter, e) is e at the start of that iteration.
 // Packets arriving on client.in were produced by the packet reader: a CONNECT has protocol level 3, 4 or 5
-// (Connect.Unpack refuses anything else) and v5 packets carry a property block.
-//@ spec func wfPacket(p packets.Packet) bool = (p.(type *packets.Connect) ==> p.(*packets.Connect) != nil && (p.(*packets.Connect).Version == 3 || p.(*packets.Connect).Version == 4 || p.(*packets.Connect).Version == 5) && (p.(*packets.Connect).Version == 5 ==> p.(*packets.Connect).Properties != nil)) && (p.(type *packets.Auth) ==> p.(*packets.Auth) != nil && p.(*packets.Auth).Properties != nil)
+// (Connect.Unpack refuses anything else) and carries a property block for v5; an AUTH carries one unless it is the
+// empty AUTH (remaining length 0, reason Success) — Auth.Unpack, pkg/packets.
+//@ spec func wfPacket(p packets.Packet) bool = (p.(type *packets.Connect) ==> p.(*packets.Connect) != nil && (p.(*packets.Connect).Version == 3 || p.(*packets.Connect).Version == 4 || p.(*packets.Connect).Version == 5) && (p.(*packets.Connect).Version == 5 ==> p.(*packets.Connect).Properties != nil)) && (p.(type *packets.Auth) ==> p.(*packets.Auth) != nil && (p.(*packets.Auth).Code != 0 ==> p.(*packets.Auth).Properties != nil))
 //@ recv field (client).in ensures wfPacket(value)
 
 //@ func (*client).connectWithTimeOut
